@@ -10,6 +10,16 @@ From I18n Require Import Lib.Outcome Lib.PySrc Model.IntExpr Model.PluralForms M
 Import ListNotations.
 Local Open Scope Z_scope.
 
+(* Case analysis on every integer comparison of the goal, contradictory combinations closed by lia: the proofs below do not
+   depend on how the source spells a comparison (a < b / b > a, y + 1 / 1 + y), nor on the names of its variables. *)
+Ltac zcmp := repeat match goal with
+  | |- context [Z.eqb ?a ?b] => let E := fresh "E" in destruct (Z.eqb a b) eqn:E
+  | |- context [Z.ltb ?a ?b] => let E := fresh "E" in destruct (Z.ltb a b) eqn:E
+  | |- context [Z.leb ?a ?b] => let E := fresh "E" in destruct (Z.leb a b) eqn:E
+  | |- context [Z.gtb ?a ?b] => let E := fresh "E" in destruct (Z.gtb a b) eqn:E
+  | |- context [Z.geb ?a ?b] => let E := fresh "E" in destruct (Z.geb a b) eqn:E
+  end; cbn [negb andb orb].
+
 (* ---------- how the model's results appear at the source level ---------- *)
 Definition exn_of_crash (c : crash_kind) : pyexn :=
   match c with CValueError => XValue | CAttributeError => XAttribute | CNotImplemented => XNotImplemented | _ => XCrash c end.
@@ -144,12 +154,7 @@ Proof.
   destruct (max_digits_ok maxd (N.of_nat (length ds))); cbn [negb scall obind]; [|reflexivity].
   rewrite src_parse_plural_expression_eq.
   destruct (parse_string maxd body) as [e|k|c]; cbn [embed_syn scall embed obind].
-  - pose proof (zlen_nonneg l). pose proof (zlen_nonneg r).
-    destruct l as [|c0 l'].
-    + cbn [zlen length Z.of_nat Z.eqb negb]. destruct r as [|c1 r'].
-      * replace (zlen s - zlen (@nil N) =? zlen s) with true by (unfold zlen; cbn; lia). reflexivity.
-      * replace (zlen s - zlen (c1 :: r') =? zlen s) with false by (unfold zlen; cbn; lia). reflexivity.
-    + replace (zlen (c0 :: l') =? 0) with false by (unfold zlen; cbn; lia). reflexivity.
+  - destruct l as [|c0 l'], r as [|c1 r']; zcmp; try reflexivity; exfalso; unfold zlen in *; cbn [length] in *; lia.
   - reflexivity.
   - destruct c; reflexivity.
 Qed.
@@ -177,8 +182,8 @@ Proof.
   induction keys as [|i keys IH]; intros out uncov; cbn [src_check_plurals_loop4 gap_scan].
   - rewrite app_nil_r. reflexivity.
   - change (dict_has p) with (pre_has p).
-    destruct ((i >? 0) && negb (pre_has p (i - 1))); [reflexivity|].
-    destruct ((i + 1 <? n) && negb (pre_has p (i + 1))); [reflexivity|]. apply IH.
+    zcmp; repeat match goal with |- context [pre_has p ?k] => destruct (pre_has p k) end; cbn [negb andb orb];
+      try reflexivity; try apply IH; exfalso; lia.
 Qed.
 
 Lemma gap_scan_nonempty n p : forall keys, Forall (fun r => fst r < snd r) (gap_scan n p keys).
@@ -212,29 +217,17 @@ Definition after_window (out : list stag) (hp : bool) (n : Z) (e : expr) (wpre :
 
 Lemma k_codomain_eq hp n e out wpre : src_check_plurals_k5 MW out wpre hp n e 200 = after_window out hp n e wpre.
 Proof.
-  unfold src_check_plurals_k5, after_window. cbn [w_codomain w_period MW].
-  pose proof (uncov_nonempty e n wpre) as HU. unfold uncov_of, uncov1_of in *.
+  unfold src_check_plurals_k5, after_window, uncov_of, uncov1_of. cbn [w_codomain w_period MW].
   destruct (codomain M32 e) as [|x y|]; cbn [of_cres sopt scall]; [| |reflexivity].
-  - cbn [nonempty negb]. destruct wpre as [p|].
-    + destruct (period M32 e) as [[o pp]|]; cbn [of_opt sopt scall fst snd zinf_add zinf_ltb].
-      * change 200 with window. destruct (o + pp <? window).
-        -- rewrite loop_gap_eq. cbn [app]. unfold src_check_plurals_k3, dict_keys. rewrite loop_never_eq by exact HU.
-           destruct (gap_scan n p (map fst p)); reflexivity.
-        -- unfold src_check_plurals_k3. rewrite loop_never_eq by constructor. reflexivity.
-      * unfold src_check_plurals_k3. rewrite loop_never_eq by constructor. reflexivity.
-    + unfold src_check_plurals_k3. rewrite loop_never_eq by constructor. reflexivity.
-  - cbn [app]. destruct (x >? 0); destruct (y + 1 <? n); cbn [app nonempty negb] in *;
-      try (unfold src_check_plurals_k3; rewrite loop_never_eq by exact HU; reflexivity).
-    destruct wpre as [p|].
-    + destruct (period M32 e) as [[o pp]|]; cbn [of_opt sopt scall fst snd zinf_add zinf_ltb].
-      * change 200 with window. destruct (o + pp <? window).
-        -- rewrite loop_gap_eq. cbn [app]. unfold src_check_plurals_k3, dict_keys. rewrite loop_never_eq by exact HU.
-           destruct (gap_scan n p (map fst p)); reflexivity.
-        -- unfold src_check_plurals_k3. rewrite loop_never_eq by constructor. reflexivity.
-      * unfold src_check_plurals_k3. rewrite loop_never_eq by constructor. reflexivity.
-    + unfold src_check_plurals_k3. rewrite loop_never_eq by constructor. reflexivity.
+  all: destruct wpre as [p|]; [destruct (period M32 e) as [[o pp]|]|];
+    cbn [of_opt sopt scall fst snd zinf_add zinf_ltb]; change 200 with window; zcmp; cbn [app nonempty negb];
+    rewrite ?loop_gap_eq; unfold src_check_plurals_k3, dict_keys; cbn [app];
+    try (exfalso; lia);
+    (rewrite loop_never_eq by (first [apply gap_scan_nonempty | repeat constructor; cbn [fst snd]; lia]));
+    cbn [never_tags map app fst snd];
+    try (destruct (gap_scan n p (map fst p)));
+    try reflexivity; repeat (f_equal; try lia).
 Qed.
-
 
 (* ---------- the window loop (for i in range(200), inside try / except OverflowError / except ZeroDivisionError) ---------- *)
 Lemma window_loop_acc e n lc : forall is pre u acc,
@@ -276,23 +269,16 @@ Proof.
   - rewrite app_nil_r. reflexivity.
   - cbn [w_call MW]. pose proof (pyeval_nocrash M32 e i) as Hnc.
     destruct (pyeval M32 e i) as [fi|k|c]; cbn [of_eres scall]; [| |exfalso; eapply Hnc; reflexivity].
-    + destruct (fi >=? n).
-      { cbn [fst snd map app tag_of_diag]. destruct hp; reflexivity. }
-      rewrite dd_append_pre_add.
-      destruct lc as [le|]; cbn [option_map].
-      * rewrite Z.eqb_refl. pose proof (pyeval_nocrash M32 le i) as Hnc'.
-        destruct (pyeval M32 le i) as [w|k|c]; cbn [of_eres scall]; [| |exfalso; eapply Hnc'; reflexivity].
-        -- destruct (negb (fi =? w)) eqn:E1; cbn [andb].
-           ++ destruct (negb u) eqn:E2.
-              ** rewrite window_loop_acc. cbn [fst snd app map tag_of_diag].
-                 replace u with false by (destruct u; [discriminate|reflexivity]).
-                 specialize (IH (out ++ [TUnusual hp v]) (pre_add pre fi i) true).
-                 cbn [option_map] in IH. destruct hp; cbn [negb]; rewrite IH, <- app_assoc; reflexivity.
-              ** specialize (IH out (pre_add pre fi i) u). cbn [option_map] in IH. rewrite IH. reflexivity.
-           ++ specialize (IH out (pre_add pre fi i) u). cbn [option_map] in IH. rewrite IH. reflexivity.
-        -- cbn [fst snd app map tag_of_diag]. destruct k; [rewrite k_overflow_eq|rewrite k_zerodiv_eq]; reflexivity.
-      * specialize (IH out (pre_add pre fi i) u). cbn [option_map] in IH. rewrite IH. reflexivity.
-    + cbn [fst snd app map tag_of_diag]. destruct k; [rewrite k_overflow_eq|rewrite k_zerodiv_eq]; reflexivity.
+    2: { cbn [fst snd app map tag_of_diag]. destruct k; [rewrite k_overflow_eq|rewrite k_zerodiv_eq]; reflexivity. }
+    rewrite ?dd_append_pre_add.
+    destruct lc as [le|]; cbn [option_map] in *.
+    + pose proof (pyeval_nocrash M32 le i) as Hnc'.
+      destruct (pyeval M32 le i) as [w|k|c]; cbn [of_eres scall]; zcmp; destruct u, hp; cbn [negb andb];
+        try (exfalso; lia); try (exfalso; eapply Hnc'; reflexivity);
+        try (destruct k; rewrite ?k_overflow_eq, ?k_zerodiv_eq);
+        cbn [fst snd app map tag_of_diag]; try (rewrite window_loop_acc; cbn [fst snd app map tag_of_diag]);
+        rewrite ?IH, <- ?app_assoc; reflexivity.
+    + zcmp; destruct hp; try (exfalso; lia); cbn [fst snd app map tag_of_diag]; rewrite ?IH; reflexivity.
 Qed.
 
 Lemma k_window_eq out v hp n e lc :
@@ -337,11 +323,9 @@ Proof.
     pose proof (fun x => proj1 (filter_In (fun x : Z * expr => fst x =? n) x r)) as HF.
     destruct (filter (fun x : Z * expr => fst x =? n) r) as [|[a b] [|q t]]; cbn [nonempty negb d_unusual0 lc_of map option_map tag_of_diag].
     + destruct hp; reflexivity.
-    + change (zlen [(a, b)] =? 1) with true. cbn iota.
-      assert (a = n) by (destruct (HF (a, b) (or_introl eq_refl)) as [_ H]; cbn in H; lia). subst a.
-      rewrite app_nil_r. reflexivity.
-    + replace (zlen ((a, b) :: q :: t) =? 1) with false by (unfold zlen; cbn [length]; lia).
-      rewrite app_nil_r. reflexivity.
+    + assert (a = n) by (destruct (HF (a, b) (or_introl eq_refl)) as [_ H]; cbn in H; lia). subst a.
+      unfold zlen; cbn [length]; zcmp; try (exfalso; lia). rewrite app_nil_r. reflexivity.
+    + unfold zlen; cbn [length]; zcmp; try (exfalso; lia). rewrite app_nil_r. reflexivity.
   - reflexivity.
   - destruct c; reflexivity.
 Qed.
@@ -355,10 +339,6 @@ Definition embed_core (out : list stag) (hp : bool) (v : str) (r : outcome (list
   | Err _ => SRaise XPluralForms
   | Crash c => sres_of_crash c
   end.
-
-Lemma keys_single (exp : list (Z * G)) :
-  (zlen exp =? 1) = match dict_keys exp with [_] => true | _ => false end.
-Proof. destruct exp as [|p [|q r]]; try reflexivity. unfold zlen. cbn [length dict_keys map]. lia. Qed.
 
 (* check_plurals_core after the registry declarations have been parsed *)
 Definition core_tail (n : Z) (e : expr) (ljunk rjunk : str) (expected : list Z) (reg : option (list (Z * expr)))
@@ -400,6 +380,9 @@ Proof.
   all: rewrite !map_app, map_map, <- !app_assoc; cbn [tag_of_diag fst snd]; reflexivity.
 Qed.
 
+Lemma zlen_keys (exp : list (Z * G)) : zlen exp = zlen (dict_keys exp).
+Proof. unfold zlen, dict_keys. rewrite map_length. reflexivity. Qed.
+
 Lemma k_value_eq out v correct hp (exp : list (Z * G)) : is_template = false ->
   src_check_plurals_k12 MW out (Some v) correct hp exp =
   embed_core out hp v (check_plurals_core maxd {| pf_value := v; pf_has_plurals := hp; pf_expected := dict_keys exp; pf_correct := correct |}).
@@ -409,26 +392,16 @@ Proof.
   destruct (parse_plural_forms maxd v) as [[[[n e] lj] rj]|k|c]; cbn [embed scall embed_core].
   2: { destruct hp; reflexivity. }
   2: { destruct c; reflexivity. }
-  set (out1 := out ++ map (tag_of_diag hp v) (d_ljunk lj)).
-  set (out2 := out1 ++ map (tag_of_diag hp v) (d_rjunk rj)).
-  set (out3 := out2 ++ map (tag_of_diag hp v) (d_count n (dict_keys exp))).
-  assert (H1 : (if nonempty lj then out ++ [TLeadingJunk lj] else out) = out1).
-  { unfold out1. destruct lj; cbn; [rewrite app_nil_r|]; reflexivity. }
-  assert (H2 : forall o, (if nonempty rj then o ++ [TTrailingJunk rj] else o) = o ++ map (tag_of_diag hp v) (d_rjunk rj)).
-  { intros o. destruct rj; cbn; [rewrite app_nil_r|]; reflexivity. }
-  rewrite H1, H2. fold out2.
-  assert (H3 : (if zlen exp =? 1
-                then match dict_keys exp with
-                     | [k0] => src_check_plurals_k11 MW (if negb (n =? k0) then out2 ++ [TIncorrectN n k0] else out2) v correct hp n e
-                     | _ => SRaise XValue
-                     end
-                else src_check_plurals_k11 MW out2 v correct hp n e) = src_check_plurals_k11 MW out3 v correct hp n e).
-  { unfold out3, d_count. rewrite keys_single. destruct (dict_keys exp) as [|k0 [|k1 t]]; cbn [map]; rewrite ?app_nil_r; try reflexivity.
-    destruct (negb (n =? k0)); cbn [map tag_of_diag]; rewrite ?app_nil_r; reflexivity. }
-  rewrite H3. clear H1 H2 H3.
-  rewrite k_registry_eq.
-  destruct (registry_of correct) as [reg|k|c]; cbn [obind embed_core]; [|reflexivity|reflexivity].
-  rewrite <- k_core_tail_eq. unfold out3, out2, out1. rewrite !map_app, <- !app_assoc. reflexivity.
+  (* whatever the junk / count tests emitted, the rest continues with that prefix *)
+  assert (K : forall out', out' = out ++ map (tag_of_diag hp v) (d_ljunk lj ++ d_rjunk rj ++ d_count n (dict_keys exp)) ->
+    src_check_plurals_k11 MW out' v correct hp n e =
+    embed_core out hp v (do reg <- registry_of correct; core_tail n e lj rj (dict_keys exp) reg)).
+  { intros out' ->. rewrite k_registry_eq.
+    destruct (registry_of correct) as [reg|k|c]; cbn [obind embed_core]; [|reflexivity|reflexivity].
+    rewrite <- k_core_tail_eq. rewrite !map_app, <- !app_assoc. reflexivity. }
+  rewrite zlen_keys. unfold d_ljunk, d_rjunk, d_count in K.
+  destruct lj, rj, (dict_keys exp) as [|k0 [|k1 t]]; unfold zlen; cbn [nonempty length]; zcmp; try (exfalso; lia);
+    apply K; zcmp; try (exfalso; lia); cbn [map app tag_of_diag]; rewrite <- ?app_assoc; cbn [app]; rewrite ?app_nil_r; reflexivity.
 Qed.
 
 (* ---------- the head: the arguments of inconsistent-number-of-plural-forms ---------- *)
@@ -472,11 +445,8 @@ Qed.
 Lemma k_after_scan_eq out pf correct hp (exp : list (Z * G)) :
   src_check_plurals_k14 MW out pf correct hp exp = after_scan out pf correct hp (dict_keys exp).
 Proof.
-  unfold src_check_plurals_k14, after_scan, inconsistent_args.
-  replace (zlen (dict_keys exp)) with (zlen exp) by (unfold zlen, dict_keys; rewrite map_length; reflexivity).
-  destruct (zlen exp >? 1).
-  - rewrite loop_args_eq. cbn [app]. apply k_none_template_eq.
-  - rewrite app_nil_r. apply k_none_template_eq.
+  unfold src_check_plurals_k14, after_scan, inconsistent_args. rewrite <- zlen_keys.
+  zcmp; try (exfalso; lia); rewrite ?loop_args_eq; cbn [app]; rewrite ?app_nil_r; apply k_none_template_eq.
 Qed.
 
 (* ---------- the loop over ctx.file ---------- *)
@@ -501,10 +471,8 @@ Proof.
     destruct (obsolete g); [apply IH|].
     destruct (msgid_plural g) as [mp|]; [|apply IH].
     destruct (translated g); cbn [negb]; [|apply IH].
-    rewrite <- (dict_set_keys exp (zlen (msgstr_plural g)) g).
-    replace (zlen (dict_keys (dict_set exp (zlen (msgstr_plural g)) g))) with (zlen (dict_set exp (zlen (msgstr_plural g)) g))
-      by (unfold zlen, dict_keys; rewrite map_length; reflexivity).
-    destruct (zlen (dict_set exp (zlen (msgstr_plural g)) g) >? 1); cbn [fst snd]; [apply k_after_scan_eq|apply IH].
+    rewrite <- (dict_set_keys exp (zlen (msgstr_plural g)) g), <- zlen_keys.
+    zcmp; try (exfalso; lia); cbn [fst snd]; first [apply k_after_scan_eq|apply IH].
 Qed.
 
 (* ---------- the whole method ---------- *)
@@ -521,11 +489,8 @@ Proof.
     | _ => SAssert
     end).
   { intros out vals. unfold src_check_plurals_k16, src_check_plurals_k15. cbn [w_language w_get_plural_forms w_file MW].
-    destruct vals as [|v [|v' t]].
-    - cbn [zlen length Z.of_nat Z.eqb negb]. rewrite loop_scan_eq. destruct language; reflexivity.
-    - change (zlen [v] =? 1) with true. cbn iota. rewrite loop_scan_eq. destruct language; reflexivity.
-    - replace (zlen (v :: v' :: t) =? 1) with false by (unfold zlen; cbn [length]; lia).
-      replace (zlen (v :: v' :: t) =? 0) with false by (unfold zlen; cbn [length]; lia). reflexivity. }
+    destruct vals as [|v [|v' t]]; unfold zlen; cbn [length]; zcmp; try (exfalso; lia);
+      rewrite ?loop_scan_eq; destruct language; reflexivity. }
   change (map (fun g => {| pm_obsolete := obsolete g; pm_plural := match msgid_plural g with Some _ => true | None => false end;
                            pm_translated := translated g; pm_count := zlen (msgstr_plural g) |}) file) with (map pmsg_of file).
   destruct (scan_msgs (map pmsg_of file) false []) as [hp counts] eqn:ES.
@@ -553,10 +518,7 @@ Proof.
     - destruct is_template; [reflexivity|].
       destruct (check_plurals_core maxd _) as [[ds pre]|k|c]; cbn [embed_core embed]; [|reflexivity|reflexivity].
       rewrite <- app_assoc. reflexivity. }
-  destruct (zlen values >? 1) eqn:Ed; cbn [andb app].
-  - destruct (zlen (str_sorted_set values) >? 1); [reflexivity|].
-    rewrite K16. cbn [fst snd]. apply (Tail [TDuplicate]).
-  - rewrite K16. cbn [fst snd]. apply (Tail []).
+  zcmp; try (exfalso; lia); cbn [app]; try reflexivity; rewrite K16; cbn [fst snd]; first [apply (Tail [TDuplicate])|apply (Tail [])].
 Qed.
 
 
